@@ -26,6 +26,9 @@ Inductive op :=
 | Notify (p : N)                 (* Notify with payload id p *)
 | Other (k : N)                  (* Reply / result / Write: takes a counter, no cache *)
 | Lookup (c : N)                 (* DatagramForMsgCounter *)
+| NotifyProbe (p : N)            (* Notify whose datagram is looked up by its counter while the connection
+                                    writer is being handed it (the notification is the most recent entry of
+                                    the cache, so this lookup changes nothing) *)
 | Burst (ks : list N).           (* overlapping Reply / result / Write calls of kinds ks from as many goroutines:
                                     each takes its counter in one atomic step (atomic.AddUint64), so every
                                     interleaving hands out the same set of counters; the runner pairs the
@@ -107,6 +110,10 @@ Definition step (s : st) (o : op) : st * list obs :=
       let c := N.succ (ctr s) in
       let '(l, sp) := lru_put c p (lru s) (space s) in
       ({| ctr := c; reqs := reqs s; lru := l; space := sp |}, [Written c K_NOTIFY p; RetCtr c])
+  | NotifyProbe p =>
+      let c := N.succ (ctr s) in
+      let '(l, sp) := lru_put c p (lru s) (space s) in
+      ({| ctr := c; reqs := reqs s; lru := l; space := sp |}, [Written c K_NOTIFY p; RetCtr c; Found p])
   | Other k =>
       let c := N.succ (ctr s) in
       ({| ctr := c; reqs := reqs s; lru := lru s; space := space s |}, [Written c k 0%N])
@@ -138,6 +145,7 @@ Definition parse_op (l : list Z) : option op :=
   | [2; p] => Some (Notify (Nz p))
   | [3; k] => Some (Other (Nz k))
   | [4; c] => Some (Lookup (Nz c))
+  | [6; p] => Some (NotifyProbe (Nz p))
   | 5 :: ks => Some (Burst (map Nz ks))
   | _ => None
   end.
